@@ -21,13 +21,13 @@ TIERS = {
               "NULLABLE": (8, 16, 7, 13, 24, 14), "AMBIG": (6, 15, 5, 13, 24, 14), "LEFTREC": (7, 22, 6, 16, 24, 14),
               "RIGHTREC": (8, 20, 7, 16, 24, 14), "MULTICHAR": (3, 8, 3, 8, 8, 9), "CSVISH": (8, 22, 7, 16, 28, 18),
               "TWOSTART": (8, 16, 7, 13, 12, 14), "LENGTHS": (7, 18, 6, 14, 24, 14)},
-        expand_seeds=2, mutate_seeds=1, step_timeout=90),
+        expand_seeds=3, mutate_seeds=1, step_timeout=150, cap=12, n_phase1=5),
     "thorough": dict(
         plan={"ASSGN2": (9, 34, 8, 22, 220, 120), "XMLISH": (8, 34, 7, 24, 220, 120), "NUM": (8, 20, 7, 16, 160, 100),
               "NULLABLE": (10, 20, 9, 17, 60, 30), "AMBIG": (7, 17, 6, 15, 160, 60), "LEFTREC": (8, 24, 7, 18, 160, 80),
               "RIGHTREC": (9, 24, 8, 18, 160, 80), "MULTICHAR": (3, 8, 3, 8, 8, 9), "CSVISH": (8, 24, 7, 18, 220, 120),
               "TWOSTART": (10, 20, 9, 17, 30, 20), "LENGTHS": (8, 20, 7, 16, 160, 100)},
-        expand_seeds=5, mutate_seeds=4, step_timeout=180),
+        expand_seeds=5, mutate_seeds=4, step_timeout=400, cap=30, n_phase1=16),
 }
 FUZZERS = [("GrammarFuzzer", 0, 10), ("GrammarCoverageFuzzer", 0, 10), ("GrammarFuzzer", 2, 5), ("GrammarCoverageFuzzer", 3, 20)]
 OPS = ["mutate", "replace_subtree_randomly", "swap_subtrees", "generalize_subtree"]
@@ -82,8 +82,14 @@ def build_units(chk, wd):
             for fi, (cls, mn, mx) in enumerate(FUZZERS):
                 order = list(opens)
                 rnd.shuffle(order)
-                for ci, c in enumerate(chunks(order, max(1, len(order) // UNIT))):
-                    units.append({"grammar": name, "g": jg, "kind": "expand", "cls": cls, "minnt": mn, "maxnt": mx,
+                unit = UNIT
+                if mn > 0:
+                    # phase 1 of expand_tree (deterministic max-cost strategy) only runs with min_nonterminals > 0:
+                    # fewer trees, small units
+                    order = order[:P["n_phase1"]]
+                    unit = 3
+                for ci, c in enumerate(chunks(order, max(1, len(order) // unit))):
+                    units.append({"grammar": name, "g": jg, "kind": "expand", "cls": cls, "minnt": mn, "maxnt": mx, "cap": P["cap"],
                                   "eps": bool((s + fi + ci) % 2), "seed": rnd.randrange(1, 10 ** 6), "pres": c})
         for s in range(P["mutate_seeds"]):
             for op in OPS:
@@ -91,7 +97,7 @@ def build_units(chk, wd):
                 rnd.shuffle(order)
                 for ci, c in enumerate(chunks(order, max(1, len(order) // UNIT))):
                     mm = [(2, 5), (1, 1), (3, 3)][(s + ci) % 3]
-                    units.append({"grammar": name, "g": jg, "kind": "mutate", "minmut": mm[0], "maxmut": mm[1],
+                    units.append({"grammar": name, "g": jg, "kind": "mutate", "minmut": mm[0], "maxmut": mm[1], "cap": P["cap"],
                                   "eps": bool((s + ci) % 2), "seed": rnd.randrange(1, 10 ** 6), "pres": c,
                                   "ops": [op] * len(c)})
     return units
@@ -132,6 +138,10 @@ def run(chk, units):
                 if st["res"] == "nothing":
                     chk.note("strategy_not_applicable_" + st["op"])
                     continue
+                if st["res"] == "timeout":
+                    chk.cov["unjudged"] += 1
+                    chk.note("step_timeouts_" + st["op"])
+                    continue
                 sid = len(steps) + 1
                 steps.append({"id": sid, "gi": gnames.index(u["grammar"]) + 1, "kind": st["kind"], "res": st["res"],
                               "pre": st["pre"], "post": st["post"]})
@@ -155,9 +165,10 @@ def run(chk, units):
                 if why == "OK":
                     chk.cov["traces_validated_against_impl"] += 1
                 else:
-                    sig = {"clause": why, "op": st["op"], "grammar": u["grammar"], "exc": st["exc"].split(":")[0]}
+                    sig = {"clause": why, "op": st["op"], "exc": st["exc"].split(":")[0]}
                     if st["kind"] == "expand":
                         sig["fuzzer"] = u["cls"]
+                        sig["min_nonterminals_positive"] = u["minnt"] > 0
                     unit = dict(u, pres=u["pres"][:k + 1])
                     if "ops" in unit:
                         unit["ops"] = unit["ops"][:k + 1]
@@ -202,5 +213,5 @@ def replay(path):
     with open(path) as f:
         rec = json.load(f)
     chk = Check(PID, "quick")
-    run(chk, [c["unit"] for c in rec["cases"]])
+    run(chk, [dict(c["unit"], cap=c["unit"].get("cap", 30)) for c in rec["cases"]])
     return chk.finish()
